@@ -47,10 +47,10 @@ type c07Gen struct {
 }
 
 type c07Macro struct {
-	name        string
-	req         int
-	rest        bool
-	definesFn   string // non-empty: expands to a defun of this name
+	name      string
+	req       int
+	rest      bool
+	definesFn string // non-empty: expands to a defun of this name
 }
 
 func (g *c07Gen) probe(tag string, e *sx.N) *sx.N {
@@ -67,7 +67,7 @@ func (g *c07Gen) template(k int, m *c07Macro) *sx.N {
 	var t *sx.N
 	choice := g.r.Intn(12)
 	if m.rest {
-		choice = 100 + g.r.Intn(5)
+		choice = 100 + g.r.Intn(7)
 	}
 	switch choice {
 	case 0:
@@ -135,6 +135,9 @@ func (g *c07Gen) template(k int, m *c07Macro) *sx.N {
 	case 103:
 		g.feat["tmpl:progn-body"] = true
 		t = sx.Call("progn", uq(p(1)), uqs(sx.Y("body")))
+	case 105:
+		g.feat["tmpl:splice-under-two-quotes"] = true
+		t = sx.Call("list", sx.Q(sx.Q(sx.L(sx.I(1), uqs(sx.Y("body")), sx.I(4)))), uq(p(1)))
 	default:
 		g.feat["tmpl:splice-in-nested"] = true
 		t = sx.Call("list", sx.Call("list", uqs(sx.Y("body"))), sx.Call("length", sx.Q(sx.L(uqs(sx.Y("body"))))))
@@ -397,10 +400,16 @@ func (g *c07Gen) qqTemplate(d int, skel *[]string) *sx.N {
 	}
 	*skel = append(*skel, ")")
 	l := sx.L(xs...)
-	switch g.r.Intn(6) {
+	switch g.r.Intn(8) {
 	case 0:
 		*skel = append(*skel, "quoted-list")
 		return sx.Q(l)
+	case 2:
+		*skel = append(*skel, "quoted2-list")
+		return sx.Q(sx.Q(l))
+	case 3:
+		*skel = append(*skel, "quoted3-list")
+		return sx.Q(sx.Q(sx.Q(l)))
 	case 1:
 		*skel = append(*skel, "bracket")
 		return &sx.N{K: sx.Brack, L: xs}
